@@ -51,7 +51,7 @@ def cases(tier, seed):
                         ms = allmasks[3::5]
                     for bits in ms:
                         out.append(dict(base, mask={"kind": "bool", "bits": bits}, threads=T))
-            for sl in ([(1, None, None), (None, -1, None), (None, None, 2), (-3, 3, None)]):
+            for sl in ([(1, None, None), (None, -1, None), (None, None, 2), (-3, 3, None), (None, None, -1), (N - 1, 0, -2)]):
                 out.append(dict(base, mask={"kind": "slice", "start": sl[0], "stop": sl[1], "step": sl[2]}, threads=2))
             if dt in ("float64", "int64") or tier == "thorough":
                 for comp in compositions(N, maxparts):
